@@ -82,7 +82,9 @@ class Pools:
                dtmax, -dtmax, dtmax - 1, -dtmax + 1, 3652058 * 86400 * 10**6, -3652058 * 86400 * 10**6,
                3652059 * 86400 * 10**6 - 1, -(3652059 * 86400 * 10**6 - 1), 3652059 * 86400 * 10**6,
                2**53, 2**53 + 1, -(2**53) - 1, 43200 * 10**6, 500000, 499999, -500000, 7 * 86400 * 10**6,
-               7000000 * 86400 * 10**6, -7000000 * 86400 * 10**6, 59999999, 3599999999, 93784005006]
+               7000000 * 86400 * 10**6, -7000000 * 86400 * 10**6, 59999999, 3599999999, 93784005006,
+               31 * 86400 * 10**6 + 5, 32 * 86400 * 10**6, -32 * 86400 * 10**6 - 1, 33 * 86400 * 10**6, 99 * 86400 * 10**6,
+               100 * 86400 * 10**6 + 3600 * 10**6, 9 * 86400 * 10**6, 10 * 86400 * 10**6]
         dts += [rnd.randint(-dtmax, dtmax) for _ in range(n(6))] + [rnd.randint(-10**12, 10**12) for _ in range(n(6))]
         self.dt = uniq([us3(x) for x in dts])
         self.i32 = uniq([0, 1, -1, I32_MIN, I32_MAX, I32_MIN + 1, 3652058, -3652058, 3652059, -3652059, 719162, -719162,
